@@ -3,6 +3,8 @@
 package proj
 
 import (
+	"unicode"
+	"unicode/utf8"
 	"runtime"
 	"fmt"
 	"sort"
@@ -348,7 +350,8 @@ type Gen struct {
 	Platform   bool // imported packages get host-only files (name suffix) and files for a foreign platform (C19, C11)
 }
 
-var nameParts = []string{"Build", "Test", "Deploy", "Clean", "Lint", "Run", "Gen", "Docs", "Pack", "Ship", "URL", "DBSync", "HTTPGet", "A", "Ab", "ABc", "Fmt2", "X_y"}
+var nameParts = []string{"Build", "Test", "Deploy", "Clean", "Lint", "Run", "Gen", "Docs", "Pack", "Ship", "URL", "DBSync", "HTTPGet", "A", "Ab", "ABc", "Fmt2", "X_y",
+	"Über", "Éclair", "NaÏve"} // identifiers beyond ASCII (Latin-1): exported by unicode.IsUpper, lower-cased by strings.ToLower, untouched by the ASCII-only [[:upper:]]
 
 func (g *Gen) name(used map[string]bool) string {
 	for {
@@ -489,7 +492,7 @@ func (g *Gen) genPkg(nfiles int, prefix string, used map[string]bool) Pkg {
 			}
 		}
 		if g.BadSigs && r.Chance(1, 8) {
-			d.Name = strings.ToLower(d.Name[:1]) + d.Name[1:] // unexported
+			d.Name = lowerFirstRune(d.Name) // unexported
 		}
 		if g.BadSigs && r.Chance(1, 10) {
 			d.TParams = []string{"[T any]", "[K comparable, V any]", "[T int | string]"}[r.Intn(3)] // a generic function is no target
@@ -507,7 +510,7 @@ func (g *Gen) genPkg(nfiles int, prefix string, used map[string]bool) Pkg {
 			t.Rhs = TExpr{K: "other", A: "struct{}"} // not a namespace
 		}
 		if g.BadSigs && kind == 1 {
-			t.Name = strings.ToLower(tn[:1]) + tn[1:] // unexported type
+			t.Name = lowerFirstRune(tn) // unexported type
 		}
 		f := pick()
 		f.Types = append(f.Types, t)
@@ -518,7 +521,7 @@ func (g *Gen) genPkg(nfiles int, prefix string, used map[string]bool) Pkg {
 				d.Params = g.params(false)
 			}
 			if g.BadSigs && r.Chance(1, 8) {
-				d.Name = strings.ToLower(d.Name[:1]) + d.Name[1:]
+				d.Name = lowerFirstRune(d.Name)
 			}
 			if r.Chance(1, 3) {
 				d.Doc = g.doc(d.Name)
@@ -622,7 +625,16 @@ func validSig(d FuncDecl) (bool, []string) {
 	return true, tys
 }
 
-func exportedName(s string) bool { return s != "" && s[0] >= 'A' && s[0] <= 'Z' }
+func exportedName(s string) bool {
+	r, _ := utf8.DecodeRuneInString(s)
+	return s != "" && unicode.IsUpper(r)
+}
+
+// lowerFirstRune makes an identifier unexported.
+func lowerFirstRune(s string) string {
+	r, n := utf8.DecodeRuneInString(s)
+	return string(unicode.ToLower(r)) + s[n:]
+}
 
 func Targets(p Pkg) []TargetRef {
 	ns := map[string]bool{}
